@@ -54,6 +54,7 @@ type interp struct {
 	curFr      *frame
 	tickers    []*channel
 	promNames  map[string]string
+	skls       map[*value]*sklModel
 	bigTaken   [][]value
 	lazyCells  []*value
 }
